@@ -847,6 +847,7 @@ class Check(PropertyCheck):
         # Props/C08Gen.lean: histories with description edits (engine theorems over program generations instantiated)
         "C08_client_SigCovers", "C08_client_SelfStable", "C08_outputs_clean_gen", "C08_outputs_eval_gen",
         "C08_inputs_current_gen", "C08_command_sig_tracks_definition", "C08_changed_definition_reruns_gen",
+        "C08_value_records_outputs",
         "NeedProducerStable.C08_gen_needs_ProducerStable", "C08_SigCovers_needs_TargetsStable")]
     extractors = ["x_bsrules"]
     harnesses = []
@@ -862,11 +863,12 @@ class Check(PropertyCheck):
         "explicit hypotheses: (1) the signature hash does not collide on the signature terms involved (`hH`; theorems are about pre-hash terms); "
         "(2) `TargetsStable`: the target table is the same in every generation - a target rule has no signature, so the engine obligation "
         "SigCovers fails for an edited target (C08_SigCovers_needs_TargetsStable) although a target's stored result is never reused; an edited "
-        "target is read as a new target index; (3) `ProducerStable`: a command that stays the single producer of a node keeps its tool class and "
-        "the node's position among its outputs - the node signature (type + producer names) does not cover getResultForOutput and the MODEL's "
-        "command value (one number standing for all output records, output j = mix h j) does not change when outputs are reordered, so without it "
-        "the statement is false on the model (C08_gen_needs_ProducerStable); the real command value is the list of stat records the new execution "
-        "left, which does change. Edits outside (2)/(3) are covered end to end by the history oracle only",
+        "target is read as a new target index; (3) `ProducerStable`: a command that stays the single producer of a VIRTUAL node keeps its tool "
+        "class (phony / symlink / other) - getResultForOutput's PhonyCommand/SymlinkCommand overrides are covered neither by the node signature "
+        "nor by the command's value; without it the engine-level statement fails (C08_gen_needs_ProducerStable: a skipped phony command turned "
+        "into a skipped shell command), a case the command-line tool reports as a failed build. Nothing is assumed about non-virtual outputs: the "
+        "model's command value records its output list like the real BuildValue (C08_value_records_outputs), so reordering/adding/dropping outputs "
+        "is covered by the theorem. Edits outside (2)/(3) are covered end to end by the history oracle only",
         "engine theorems C01_value / C01_value_gen are about the abstract engine; their tie to BuildEngine.cpp is C01's correspondence; a "
         "description edit is modelled as the engine's `restart` event with another Program (same database, every rule looked up again)",
     ]
